@@ -224,6 +224,11 @@ type ScriptedFault struct {
 	Ordinal int    `json:"ordinal"`
 	Kind    string `json:"kind"`
 	Elem    int    `json:"elem,omitempty"` // element of a batch (rpc_error, null_result), cut point (truncated)
+	// Class (pg only, with Ordinal -1): the fault hits the Nth event of that
+	// class (commit, begin, ...) instead of the Ordinal-th event overall: robust
+	// against how many events precede it
+	Class string `json:"class,omitempty"`
+	Nth   int    `json:"nth,omitempty"`
 }
 
 type ScriptedChain struct {
